@@ -143,7 +143,10 @@ CHECKS = {
               "block of covered items under either PUSH0 setting and reading it back gives the block, numeric values preserved). Tie: the real reader "
               "and printer are run on a deterministic corpus plus generated token streams (a quarter with a planted defect: missing operand, "
               "non-number) and on every item of generated blocks, and must agree with the model output exactly (errors included); the theorem's "
-              "premise `covered` is evaluated on the real items. Clause one (JSON documents) is a differential round trip over shipped, test and "
+              "premise `covered` is evaluated on the real items. Clause one (JSON): Models/JsonItem.lean models build_asm_bytecode (with the PUSHLIB table and the PUSH0 case) and to_json; "
+              "Json.toJson_build / buildAll_toJson / roundtrip_stable are kernel-checked for every well-formed item, table and PUSH0 setting, and every "
+              "code section of every document of the run goes item by item through the real functions and the model (equal AsmBytecode fields and "
+              "written items). The nesting of whole documents is a differential round trip over shipped, test and "
               "synthesized solc documents under both PUSH0 settings, with no theorem."),
         design_ref="DESIGN.md section 8, C15",
         technique="Lean 4 theorems (numeral round trips by induction, spelling_value, parse_print) about a model of the plain-text reader/printer + exact correspondence with the real reader/printer; differential JSON round trip",
